@@ -34,7 +34,7 @@ EXPLANATION = (
 RULE_KINDS = {
     "arith/": "finite-exhaustive",
     "escape/": "structural", "producer/": "structural", "dispatch/": "structural",
-    "range/": "bounded",
+    "range/": "bounded", "fresh/stat-before-use": "structural", "fresh/rewritten-file": "bounded",
 }
 ASSUMPTIONS = ["getFileSize() is constant during one request", "the request's write()/registerProducer() behave like the synchronous model (pull producer driven until finish)"]
 
@@ -128,6 +128,10 @@ class _Request:
 
     def finish(self):
         self.finished += 1
+
+    def setLastModified(self, when):
+        self.lastModified = when
+        return None
 
 
 class _FileObj:
@@ -396,6 +400,7 @@ def _arith_domain(ctx):
 def check(ctx):
     for name, fn in (("s-escape", lambda c: structural(c, "escape/parse-guarded", "range/evaluated-responses (bounded)", _s_escape, c)),
                      ("s-producers", lambda c: structural(c, "producer/read-bounded", "range/evaluated-responses (bounded)", _s_producers, c)),
+                     ("s-fresh-stat", lambda c: structural(c, "fresh/stat-before-use", "fresh/rewritten-file (bounded)", _s_fresh_stat, c)), ("fresh-evaluated", _fresh_evaluated),
                      ("arithmetic", _arithmetic), ("responses", _responses), ("known-multi-unsatisfiable", _known_multi_unsat), ("known-empty-range-set", _known_empty),
                      ("known-lenient-integers", _known_lenient), ("known-boundary-overruns-buffer", _known_overrun)):
         with ctx.section(name):
@@ -495,6 +500,138 @@ def _known_lenient(ctx):
     # white space inside a range-spec: RangeTests.test_rangeWithSpace of the repository pins this leniency, so it is a separate (known) construct
     _run_grid(ctx, w, "range/lenient-whitespace", Q + "File | white space inside a range-spec", [(c, b"bytes=1 -2"), (c, b"bytes=1- 2")],
               "headers with white space around the byte positions")
+
+
+# ==================================================================================================================================
+# the size every answer is computed from is the size of the file NOW: FilePath caches stat(), File.render_GET has to refresh it
+# ==================================================================================================================================
+FPATH = "python/filepath.py"
+
+
+def _stat_cache(ctx):
+    """(cache attribute, readers, refreshers) of FilePath, derived from the code: the attribute assigned from stat(...), the methods that read it, the methods that assign it"""
+    fp = ctx.cls(FPATH, "FilePath")
+    ms = methods(fp)
+    attrs = set()
+    for f in ms.values():
+        for st in walk_local(f):
+            if isinstance(st, ast.Assign) and isinstance(st.value, ast.Call) and call_name(st.value) in ("stat", "os.stat") :
+                attrs |= {t.attr for t in st.targets if isinstance(t, ast.Attribute) and src(t.value) == "self"}
+    if len(attrs) != 1:
+        raise Abstain(f"FilePath keeps the result of stat() in {sorted(attrs)}")
+    attr = attrs.pop()
+    readers, refreshers = set(), set()
+    for nm, f in ms.items():
+        for n in walk_local(f):
+            if isinstance(n, ast.Attribute) and n.attr == attr and src(n.value) == "self":
+                (refreshers if isinstance(n.ctx, ast.Store) else readers).add(nm)
+    return attr, readers - refreshers, refreshers
+
+
+def _reaches(classes, start, targets, seen=None):
+    """does self.<start>() reach one of ``targets`` through self.<m>() calls over the given classes (first definition wins)?"""
+    seen = set() if seen is None else seen
+    if start in targets:
+        return True
+    if start in seen:
+        return False
+    seen.add(start)
+    f = next((methods(c)[start] for c in classes if start in methods(c)), None)
+    if f is None:
+        return False
+    return any(_reaches(classes, c.func.attr, targets, seen) for c in walk_local(f)
+               if isinstance(c, ast.Call) and isinstance(c.func, ast.Attribute) and src(c.func.value) == "self")
+
+
+def _s_fresh_stat(ctx):
+    """STRUCTURAL: in File.render_GET every call that (transitively) answers from FilePath's cached stat - the size behind Content-Length, Content-Range, suffix ranges and the
+    416 decision, the modification time, exists/isdir - is preceded on every path by a call that refreshes the cache"""
+    attr, readers, refreshers = _stat_cache(ctx)
+    classes = [ctx.cls(S, "File"), ctx.cls(FPATH, "FilePath")]
+    f = norm_method(ctx, S, "File", "render_GET", keep=KEEP_FILE)
+    g = ctx.cfg(f)
+    q = Q + "File.render_GET"
+    selfcalls = [(n, c) for n in g.ids(lambda x: x.kind in ("stmt", "test", "with", "for")) for c in ast.walk(g.node(n).ast)
+                 if isinstance(c, ast.Call) and isinstance(c.func, ast.Attribute) and src(c.func.value) == "self"]
+    fresh = sorted({n for n, c in selfcalls if c.func.attr in refreshers})
+    uses = [(n, c) for n, c in selfcalls if c.func.attr not in refreshers and _reaches(classes, c.func.attr, readers)]
+    sized = [(n, c) for n, c in uses if _reaches(classes, c.func.attr, {"getsize"})]
+    if not sized:
+        raise Abstain("no call in render_GET reaches FilePath.getsize")
+    for n, c in uses:
+        w = g.must_precede(fresh, [n], exc=False) if fresh else [g.entry, n]
+        what = "the file size (Content-Length, Content-Range, suffix ranges, 416)" if (n, c) in sized else "the cached stat"
+        ctx.check(bool(fresh) and w is None, "fresh/stat-before-use", q + f" | self.{c.func.attr}(...)",
+                  f"self.{c.func.attr}() answers from FilePath's cached stat (self.{attr}) and can be reached without a refresh ({' / '.join(sorted(refreshers))}) during this request: "
+                  f"a long-lived File resource keeps {what} of the first request after the file was rewritten", witness=g.describe(w) if fresh else "")
+
+
+def _world_render(ctx):
+    """static.File with its FilePath base interpreted as well: the stat cache is the repository's own (restat / getsize / exists / isdir), stat() answers from DISK"""
+    for fn in ("FilePath.restat", "FilePath.getsize", "FilePath.exists", "FilePath.isdir", "FilePath.getModificationTime"):
+        ctx.func(FPATH, fn)
+    ctx.func(S, "File.render_GET")
+
+    def stat(path):
+        if DISK[0] is None:
+            raise OSError(2, "No such file or directory")
+        STATS[0] += 1
+        return _NS(st_size=len(DISK[0]), st_mode=0o100644, st_mtime=1000.0 + STATS[0], st_ino=7, st_dev=1)
+    fw = World(ctx.mod(FPATH), externals={"stat": stat, "os.stat": stat, "S_ISDIR": lambda m: (m & 0o170000) == 0o040000, "S_ISREG": lambda m: (m & 0o170000) == 0o100000,
+                                          "comparable": lambda c: c, "implementer": lambda *a: (lambda c: c), "Logger": lambda *a, **k: NullLogger()})
+    def open_(o, *a, **k):
+        OPENED.append(_FileObj(DISK[0]))
+        return OPENED[-1]
+    fw.override("open", open_)
+    w = _world(ctx)
+    w.overrides.pop("getFileSize", None)
+    w.link(fw)
+    w.override("open", open_)
+    return w
+
+
+OPENED = []
+DISK = [None]
+STATS = [0]
+
+
+def _fresh_evaluated(ctx):
+    """BOUNDED: ONE File object answers requests, the file is rewritten (longer, shorter), the same object answers again: every answer is judged against the bytes on disk then"""
+    w = _world_render(ctx)
+    small, large = bytes(range(40)), bytes(range(200, 256)) * 3 + bytes(range(90))
+    headers = [None, b"bytes=0-9", b"bytes=-5", b"bytes=30-", b"bytes=100-120", b"bytes=5-6,150-160", b"bytes=50-"]
+    bad, n = [], 0
+    for first, second in ((small, large), (large, small)):
+        f = w.bare("File", type="text/plain", encoding=None, path="/t/f.txt", _statinfo=None)
+        for content in (first, second, first):
+            DISK[0] = content
+            for h in headers:
+                n += 1
+                req, exc = _Request(h), None
+                del OPENED[:]
+                try:
+                    f.render_GET(req)
+                    for _ in range(4000):
+                        if req.finished or req.producer is None:
+                            break
+                        req.producer.resumeProducing()
+                    else:
+                        exc = "<the producer never finishes>"
+                except ModelRaised as e:
+                    exc = e.name
+                except InterpError as e:
+                    if "step limit" not in str(e):
+                        raise
+                    exc = "<a loop that does not terminate>"
+                why = _verdict(content, h, req, OPENED[-1] if OPENED else _FileObj(content), exc) + (["the file was opened %d times" % len(OPENED)] if len(OPENED) != 1 else [])
+                if why:
+                    bad.append((len(first), len(content), h, why))
+    msg = ""
+    if bad:
+        s0, s1, h, why = bad[0]
+        msg = (f"one File resource, file first {s0} bytes, now {s1} bytes on disk, {_hdr(h)}: " + "; ".join(why[:2]) + f"; {len(bad)} of {n} answers wrong "
+               "(the answer is computed from a stat that was not taken during this request)")
+    ctx.check(not bad, "fresh/rewritten-file", Q + "File.render_GET | <the file is rewritten between requests to one resource>", msg, detail=f"{n} answers")
 
 
 def _known_overrun(ctx):
